@@ -63,6 +63,100 @@ fn run_path(path: &str, class: &str, props: &[(String, Variant)], custom: &Refle
     }
 }
 
+/// optorder: the option builders are records with independent fields — the order in which the setters are called must
+/// not matter.  Every builder with two setters is exercised in both orders under the custom database (only then does
+/// a setter that resets the other field show): `<pid> option-order ...` lines for C02 (rbx_xml) and C01 (rbx_binary).
+fn optorder() -> Vec<String> {
+    use rbx_xml::{DecodeOptions, DecodePropertyBehavior, EncodeOptions, EncodePropertyBehavior};
+    let pairs = xmlmig::pairs();
+    let custom = custom_database(&pairs);
+    let mut out = Vec::new();
+    // a class only the custom database knows, a property under its alias spelling, one unknown property
+    let class = "ZzBasePart";
+    let build = || {
+        let b = InstanceBuilder::new(class).with_name("M").with_property("size", Variant::Vector3(Vector3::new(1.0, 2.0, 3.0))).with_property("Zz9", Variant::Int32(7));
+        WeakDom::new(InstanceBuilder::new("Folder").with_child(b))
+    };
+    let render = |d: &WeakDom| -> String {
+        match d.root().children().first().and_then(|r| d.get_by_ref(*r)) {
+            None => "no instance".to_string(),
+            Some(i) => {
+                let mut ks: Vec<String> = i.properties.iter().map(|(k, v)| format!("{k}={}", tokens(v))).collect();
+                ks.sort();
+                format!("{} {:?} {}", i.class, i.name, ks.join(" "))
+            }
+        }
+    };
+    let dom = build();
+    let roots = dom.root().children().to_vec();
+    // ---- rbx_xml EncodeOptions
+    let mut texts = Vec::new();
+    for order in 0..2 {
+        let o = if order == 0 {
+            EncodeOptions::new().reflection_database(&custom).property_behavior(EncodePropertyBehavior::WriteUnknown)
+        } else {
+            EncodeOptions::new().property_behavior(EncodePropertyBehavior::WriteUnknown).reflection_database(&custom)
+        };
+        let mut buf = Vec::new();
+        let r = rbx_xml::to_writer(&mut buf, &dom, &roots, o).map_err(|e| e.to_string());
+        texts.push(r.map(|_| buf));
+    }
+    if texts[0] != texts[1] {
+        out.push("C02 option-order EncodeOptions: reflection_database then property_behavior writes something else than property_behavior then reflection_database (custom database, WriteUnknown)".to_string());
+    }
+    // ---- rbx_xml DecodeOptions
+    if let Ok(text) = &texts[0] {
+        let mut seen = Vec::new();
+        for order in 0..2 {
+            let o = if order == 0 {
+                DecodeOptions::new().reflection_database(&custom).property_behavior(DecodePropertyBehavior::ReadUnknown)
+            } else {
+                DecodeOptions::new().property_behavior(DecodePropertyBehavior::ReadUnknown).reflection_database(&custom)
+            };
+            seen.push(match rbx_xml::from_reader(text.as_slice(), o) {
+                Ok(d) => render(&d),
+                Err(e) => format!("error {e}"),
+            });
+        }
+        if seen[0] != seen[1] {
+            out.push(format!("C02 option-order DecodeOptions: reflection_database then property_behavior decodes `{}`, the other order `{}` (custom database, ReadUnknown)", seen[0], seen[1]));
+        }
+        // and what either order must give: the alias under its canonical name, the unknown property kept
+        for (k, s) in seen.iter().enumerate() {
+            if !(s.contains("Size=") && s.contains("Zz9=") && !s.contains("size=")) {
+                out.push(format!("C02 option-order DecodeOptions (order {k}): with the custom database and ReadUnknown the instance is decoded as `{s}` (expected Size under its canonical name and the unknown Zz9 kept)"));
+            }
+        }
+    }
+    // ---- rbx_binary Serializer (database, compression)
+    let mut files = Vec::new();
+    for order in 0..2 {
+        let s = if order == 0 {
+            rbx_binary::Serializer::new().reflection_database(&custom).compression_type(rbx_binary::CompressionType::None)
+        } else {
+            rbx_binary::Serializer::new().compression_type(rbx_binary::CompressionType::None).reflection_database(&custom)
+        };
+        let mut buf = Vec::new();
+        let r = s.serialize(&mut buf, &dom, &roots).map_err(|e| e.to_string());
+        files.push(r.map(|_| buf));
+    }
+    if files[0] != files[1] {
+        out.push("C01 option-order Serializer: reflection_database then compression_type writes other bytes than compression_type then reflection_database (custom database, no compression)".to_string());
+    }
+    if let Ok(f) = &files[0] {
+        match rbx_binary::Deserializer::new().reflection_database(&custom).deserialize(f.as_slice()) {
+            Ok(d) => {
+                let s = render(&d);
+                if !(s.contains("Size=") && !s.contains("size=")) {
+                    out.push(format!("C01 option-order Deserializer: with the custom database the instance is decoded as `{s}` (expected Size under its canonical name)"));
+                }
+            }
+            Err(e) => out.push(format!("C01 option-order Deserializer: error {e}")),
+        }
+    }
+    out
+}
+
 /// one process' verdicts on the alias spelling: `mca<k> OK|LOSES <description>` per (pair, value)
 fn alias_child(seed: u64) {
     let mut rng = Rng::new(seed ^ 0xC15C_0515);
@@ -95,6 +189,19 @@ fn alias_child(seed: u64) {
 }
 
 pub fn cli(args: &[String]) -> bool {
+    if args.get(1).map(|s| s.as_str()) == Some("optorder-run") {
+        let lines = match std::panic::catch_unwind(optorder) {
+            Ok(l) => l,
+            Err(_) => vec!["C02 option-order panic: the option-order probe panicked".to_string()],
+        };
+        for l in &lines {
+            // `<case> <pid> <key> <message>`
+            let (pid, rest) = l.split_once(' ').unwrap();
+            println!("optorder {pid} {rest}");
+        }
+        println!("optorder done {}", lines.len());
+        return true;
+    }
     if args.get(1).map(|s| s.as_str()) == Some("migcustom-alias-child") {
         alias_child(args[2].parse().unwrap());
         return true;
